@@ -3,6 +3,7 @@ import Drv.C14
 import Drv.C17
 import Drv.C20
 import Drv.C19
+import Drv.C18
 import Drv.C01
 import Drv.C03
 import Drv.C02
@@ -22,6 +23,9 @@ def dispatch (line : String) : String :=
   | "c17.dec" :: args => C17.cmdDec args
   | "c20" :: args => C20.cmd args
   | "c19" :: args => C19.cmd args
+  | "c18.adopt" :: t :: locs :: _ => C18.cmdAdopt t locs (C01.restAfter line 3)
+  | "c18.cut" :: s :: _ => C18.cmdCut s
+  | "c18.adopt2" :: t0 :: t :: locs :: _ => C18.cmdAdopt2 t0 t locs (C01.restAfter line 4)
   | "c01.enc" :: _ => C01.cmdEnc (C01.restAfter line 1)
   | "c01.dec" :: lim :: mono :: rows :: hex :: _ => C01.cmdDec lim mono rows hex (C01.restAfter line 5)
   | "c02.block" :: rev :: bk :: rows :: _ => C02.cmdBlock rev bk rows (C01.restAfter line 4)
